@@ -139,14 +139,16 @@ Definition mforward (fuel s:nat) (ev:evt) : M nat :=
   | None => ret 0
   end.
 
-(* transition_chain::execute with an initial accumulated result *)
-Fixpoint mchain (fuel r:nat) (ev:evt) (acc:nat) (l:list row) : M nat :=
+(* transition_chain::execute with an initial accumulated result: result |= row; stop and mask as soon as a
+   bit of handled_true_or_deferred is set *)
+Definition mp11_cont (acc:nat) : bool := negb (tab1 mp11_chain_stop acc).
+Definition mchain_raw (fuel r:nat) (ev:evt) (acc:nat) (l:list row) : M nat :=
+  loop_gen (fun x => mexec_row fuel r x ev) mp11_cont bit_or acc l.
+Definition mp11_finish (acc:nat) : nat := if tab1 mp11_chain_stop acc then tab1n mp11_chain_mask acc else acc.
+Definition mchain (fuel r:nat) (ev:evt) (acc:nat) (l:list row) : M nat :=
   match l with
   | [] => ret acc
-  | x :: rest =>
-      res <- mexec_row fuel r x ev ;;
-      let acc' := bit_or acc res in
-      if tab1 mp11_chain_stop acc' then ret (tab1n mp11_chain_mask acc') else mchain fuel r ev acc' rest
+  | _ => res <- mchain_raw fuel r ev acc l ;; ret (mp11_finish res)
   end.
 
 Definition mdispatch (fuel r s:nat) (ev:evt) : M nat :=
@@ -187,12 +189,15 @@ Definition minternal_dispatch (fuel:nat) (ev:evt) : M nat :=
   | l => mchain fuel 0 ev HANDLED_FALSE l
   end.
 
+Definition mnt_phase (ev:evt) (info:nat) (result:nat) : M unit :=
+  if Nat.eqb result 0 && negb (Nat.eqb info INFO_SUBMACHINE)
+  then (rn <- get ;; iterM (fun s => mcb KNoTrans s ev false) (act rn)) else ret tt.
+
 Definition mdo_process_event (fuel:nat) (ev:evt) (info:nat) : M nat :=
   result <- mregions_loop fuel ev (m_nreg mc) 0 HANDLED_FALSE ;;
   result <- (if tab1 mp11_internal_tried result
              then (ri <- minternal_dispatch fuel ev ;; ret (bit_or result ri)) else ret result) ;;
-  (if Nat.eqb result 0 && negb (Nat.eqb info INFO_SUBMACHINE)
-   then (rn <- get ;; iterM (fun s => mcb KNoTrans s ev false) (act rn)) else ret tt) ;;
+  mnt_phase ev info result ;;
   ret result.
 
 Definition moof {A} (a:A) : M A := set_bad 2 ;; ret a.
